@@ -166,6 +166,16 @@ def gen_params(rng: random.Random, idx, tier="quick", profile="mixed", force=Non
     if P["initial_committed"] or rng.random() < 0.2:
         P["stagger"] = {"leader_down_for": rng.choice([0.2, 0.6, 1.5]), "offset_fetch_delay_p": rng.choice([0.4, 0.8])}
         P["initial_committed"] = True
+    # an application that stops polling for longer than max_poll_interval_ms: the member leaves the group by itself
+    # (LeaveGroup from its heartbeat task) and has to come back when polling resumes
+    P["max_poll_interval_ms"] = 300000
+    if profile in ("rebalance", "mixed") and rng.random() < (0.3 if profile == "rebalance" else 0.15):
+        P["max_poll_interval_ms"] = rng.choice([1000, 1500, 2500])
+        for _ in range(rng.choice([1, 1, 2])):
+            d = P["max_poll_interval_ms"] / 1000.0 + rng.choice([0.3, 1.0, 2.0, 4.0])
+            at = round(rng.uniform(0.5, max(0.6, horizon - d)), 3)
+            script.append({"t": at, "op": "idle", "m": rng.choice(sorted(members)), "for": round(d, 3)})
+        script.sort(key=lambda a: a["t"])
     P["kill_at_event"] = None      # {"m": .., "k": ..}: kill member m at loop event k (crash-point enumeration)
     P["stop_at_event"] = None
     if force:
@@ -353,7 +363,8 @@ def run_history(P):
                 retry_backoff_ms=P["retry_backoff_ms"], metadata_max_age_ms=P["metadata_max_age_ms"],
                 partition_assignment_strategy=tuple(strategies), fetch_max_wait_ms=P["fetch_max_wait_ms"],
                 max_partition_fetch_bytes=P["max_partition_fetch_bytes"],
-                isolation_level=P.get("isolation", "read_uncommitted"))
+                isolation_level=P.get("isolation", "read_uncommitted"),
+                max_poll_interval_ms=P.get("max_poll_interval_ms", 300000))
             inc["cons"] = cons
             sub = inc["sub"]
             if "pattern" in sub:
@@ -374,6 +385,13 @@ def run_history(P):
             mrng = inc["rng"]
             while not inc["stopping"]:
                 try:
+                    if loop.time() < inc.get("idle_until", 0.0):
+                        log(mid, "idle.start", until=round(inc["idle_until"] - t0, 6))
+                        while loop.time() < inc.get("idle_until", 0.0) and not inc["stopping"]:
+                            await asyncio.sleep(min(0.05, max(0.0, inc["idle_until"] - loop.time())) or 0.001)
+                        log(mid, "idle.end")
+                        if inc["stopping"]:
+                            break
                     if P["use_getone"]:
                         try:
                             m = await asyncio.wait_for(cons.getone(), 0.3)
@@ -481,6 +499,10 @@ def run_history(P):
                             inc["cons"].subscribe(a["topics"], listener=inc["cons"]._subscription.listener)
                         except Exception as e:  # noqa: BLE001
                             log(inc["id"], "exception", during="subscribe", exc=type(e).__name__, msg=str(e)[:200])
+                elif op == "idle":
+                    inc = state["live"].get(a["m"])
+                    if inc is not None:
+                        inc["idle_until"] = loop.time() + a["for"]
                 elif op == "add_partitions":
                     if a["topic"] in cl.topics:
                         cl.add_partitions(a["topic"], len(cl.topics[a["topic"]]) + a["n"])
